@@ -140,7 +140,7 @@ func (b *Bus) EaDump(start uint32, end uint32, data []byte) int {
 		s := b.segment[k]
 		if s == nil {
 			// skip the whole segment:
-			for n := 0; a <= end && n < 16; n++ {
+			for n := int(a & 0xf); a <= end && n < 16; n++ {
 				a++
 				i++
 			}
@@ -148,7 +148,7 @@ func (b *Bus) EaDump(start uint32, end uint32, data []byte) int {
 		}
 
 		// copy the whole segment:
-		for n := 0; a <= end && n < 16; n++ {
+		for n := int(a & 0xf); a <= end && n < 16; n++ {
 			data[i] = s.Read(a)
 			a++
 			i++
